@@ -41,6 +41,12 @@ type exprSpec struct {
 	// ValErrs: number of validation errors Validate returns: 0 nil, 1 a plain
 	// error, >= 2 an *eval.ValidationErrors holding that many.
 	ValErrs int `json:"val_errs,omitempty"`
+	// PrepReport: Prepare reports an error through the evaluation context
+	// instead of returning one (it has no return value): 1 eval.ReportError,
+	// 2 a nested eval.Execute whose DSL calls eval.ReportError.
+	// ValReport: Validate calls eval.ReportError (and returns what ValErrs says).
+	PrepReport int  `json:"prep_report,omitempty"`
+	ValReport  bool `json:"val_report,omitempty"`
 }
 
 // action is one thing a DSL function does while it executes.
@@ -147,7 +153,7 @@ func sharedOrTransitive(roots []*rootSpec) bool {
 // behaviourFacts scans the spec tree (static view) for late registrations,
 // appends and errors.
 type facts struct {
-	dslErr, valErr, addLater, addSame, newRoot, nilDSL, nilEntry, valMulti, rootCB bool
+	dslErr, valErr, addLater, addSame, newRoot, nilDSL, nilEntry, valMulti, rootCB, phaseReport bool
 }
 
 func (f *facts) scanExpr(e *exprSpec) {
@@ -157,6 +163,10 @@ func (f *facts) scanExpr(e *exprSpec) {
 	}
 	if e.Src && e.NilDSL {
 		f.nilDSL = true
+	}
+	if (e.Prep && e.PrepReport > 0) || (e.Val && e.ValReport) {
+		f.valErr = true
+		f.phaseReport = true
 	}
 	if e.Val && e.ValErrs > 0 {
 		f.valErr = true
@@ -227,6 +237,7 @@ func (e event) String() string { return fmt.Sprintf("%c:%s/%d", e.Phase, e.Root,
 type run struct {
 	trace    []event
 	reported []string          // tokens of the DSL errors reported, in order
+	phaseRep []string          // tokens of the errors reported through the context by Prepare / Validate
 	valRet   map[string]string // token of each validation error returned -> EvalName of the expression
 	roots    []*tRoot          // every root object registered (initial and late), registration order
 	byName   map[string]*tRoot
@@ -275,6 +286,18 @@ func (n *node) dsl() func() {
 
 func (n *node) prepare() {
 	n.run.trace = append(n.run.trace, event{'P', n.spec.ID, n.root.name})
+	switch n.spec.PrepReport {
+	case 1:
+		tok := fmt.Sprintf("preperr<%d>", n.spec.ID)
+		n.run.phaseRep = append(n.run.phaseRep, tok)
+		eval.ReportError("%s", tok)
+	case 2:
+		tok := fmt.Sprintf("prepexec<%d>", n.spec.ID)
+		n.run.phaseRep = append(n.run.phaseRep, tok)
+		if eval.Execute(func() { eval.ReportError("%s", tok) }, n) {
+			n.run.problems = append(n.run.problems, "eval.Execute returned true although its DSL reported an error")
+		}
+	}
 }
 
 func (n *node) finalize() {
@@ -283,6 +306,11 @@ func (n *node) finalize() {
 
 func (n *node) validate(self eval.Expression) error {
 	n.run.trace = append(n.run.trace, event{'V', n.spec.ID, n.root.name})
+	if n.spec.ValReport {
+		tok := fmt.Sprintf("valctx<%d>", n.spec.ID)
+		n.run.phaseRep = append(n.run.phaseRep, tok)
+		eval.ReportError("%s", tok)
+	}
 	switch k := n.spec.ValErrs; {
 	case k <= 0:
 		return nil
@@ -681,7 +709,7 @@ func (r *run) judge(c *caseSpec, err error, isCyclic bool, clos map[string]map[s
 
 	// ---- which phases must have run
 	hasDSLErr := len(r.reported) > 0
-	hasValErr := len(r.valRet) > 0
+	hasValErr := len(r.valRet) > 0 || len(r.phaseRep) > 0
 	mustRun := map[byte]bool{'D': true, 'P': !hasDSLErr, 'V': !hasDSLErr, 'F': !hasDSLErr && !hasValErr}
 	switch {
 	case hasDSLErr:
@@ -868,17 +896,29 @@ func (r *run) judge(c *caseSpec, err error, isCyclic bool, clos map[string]map[s
 		}
 	case "validation-errors":
 		if err == nil {
-			return fail("%d validation errors were returned by Validate but RunDSL returned nil", len(r.valRet))
+			return fail("%d validation errors were returned by Validate and %d errors were reported through the context by Prepare/Validate, but RunDSL returned nil", len(r.valRet), len(r.phaseRep))
 		}
 		var me eval.MultiError
 		if !errors.As(err, &me) {
 			return fail("validation errors: the returned error is a %T, not an eval.MultiError", err)
 		}
 		count := map[string]int{}
+		repCount := map[string]int{}
 		for _, e := range me {
 			var ve *eval.ValidationErrors
 			if e.GoError == nil || !errors.As(e.GoError, &ve) {
-				return fail("validation errors: returned error holds an entry that is no validation error: %q", e.Error())
+				// an error reported through the context during prepare / validate
+				matched := false
+				for _, tok := range r.phaseRep {
+					if strings.Contains(e.Error(), tok) {
+						repCount[tok]++
+						matched = true
+					}
+				}
+				if !matched {
+					return fail("validation errors: returned error holds an entry that is neither a validation error nor an error reported by Prepare/Validate: %q", e.Error())
+				}
+				continue
 			}
 			if len(ve.Errors) != len(ve.Expressions) {
 				return fail("validation errors: %d errors but %d expressions", len(ve.Errors), len(ve.Expressions))
@@ -893,6 +933,12 @@ func (r *run) judge(c *caseSpec, err error, isCyclic bool, clos map[string]map[s
 					return fail("validation error %s is attributed to %s, it was returned by %s", one.Error(), got, owner)
 				}
 			}
+		}
+		for _, tok := range r.phaseRep {
+			if repCount[tok] != 1 {
+				return fail("error %s reported through the context during prepare/validate appears %d times in the returned error", tok, repCount[tok])
+			}
+			out.Errors = append(out.Errors, tok)
 		}
 		text := err.Error()
 		for tok, owner := range r.valRet {
@@ -924,7 +970,7 @@ func recordClasses(c *caseSpec, kind string) {
 		}
 	}
 	for label, on := range map[string]bool{
-		"dsl-error": f.dslErr, "validation-error": f.valErr, "validation-multi": f.valMulti,
+		"dsl-error": f.dslErr, "validation-error": f.valErr, "validation-multi": f.valMulti, "error-reported-by-prepare-or-validate": f.phaseReport,
 		"append-later-set": f.addLater, "append-same-set": f.addSame, "register-root-during-dsl": f.newRoot,
 		"nil-dsl": f.nilDSL, "nil-entry": f.nilEntry, "root-with-callbacks": f.rootCB,
 	} {
